@@ -19,9 +19,10 @@ const (
 	kindFatal          // hands out FatalAt items, then its own error, every time
 	kindBlock          // hands out its items, then blocks until its context is done (never ends)
 	kindEndless        // a generator: never looks at its context, returns the next value at once, never ends
+	kindDeaf           // hands out its items, then sits in Next ignoring its context until the harness releases it (then End)
 )
 
-var kindNames = []string{"end", "fatal", "never-ends", "endless-ignores-ctx"}
+var kindNames = []string{"end", "fatal", "never-ends", "endless-ignores-ctx", "blocked-ignores-ctx"}
 
 // Error values a failing input can return.
 const (
@@ -156,7 +157,12 @@ type recIn struct {
 	nextAfterClose atomic.Int64
 
 	// Close that blocks on a gate / sleeps.
-	closeGate         chan struct{}
+	closeGate chan struct{}
+
+	// kindDeaf: never looks at ctx; after its items it blocks until release is closed, then ends.
+	deaf              bool
+	release           chan struct{}
+	deafBlocked       atomic.Bool
 	closeSleep        time.Duration
 	closeEntered      atomic.Int64
 	closeReturnedWall atomic.Int64
@@ -175,6 +181,15 @@ func (s *recIn) Next(ctx context.Context) (uint64, error) {
 	s.inNext.Add(1)
 	defer s.inNext.Add(-1)
 	s.pert.Do()
+	if s.deaf {
+		v, err := s.p.Next(context.Background())
+		if err == stream.End {
+			s.deafBlocked.Store(true)
+			<-s.release
+			s.endTick.CompareAndSwap(0, s.clock.Tick())
+		}
+		return v, err
+	}
 	v, err := s.p.Next(ctx)
 	switch {
 	case err == nil:
@@ -236,7 +251,7 @@ func runStream1(c *vkit.Case, p sPlan) {
 
 	var gate chan struct{}
 	var gateOnce sync.Once
-	if p.GateClose {
+	if p.GateClose || p.has(kindDeaf) {
 		gate = make(chan struct{})
 	}
 	openGate := func() {
@@ -255,7 +270,10 @@ func runStream1(c *vkit.Case, p sPlan) {
 		pr := vkit.NewProbeStream(fmt.Sprintf("in%d", i), items)
 		pr.HonourCtx = true
 		pr.Clock = clock
-		ri := &recIn{p: pr, clock: clock, pert: vkit.NewPerturber(c.Rand, 16, in.Pace), closeGate: gate}
+		ri := &recIn{p: pr, clock: clock, pert: vkit.NewPerturber(c.Rand, 16, in.Pace)}
+		if p.GateClose {
+			ri.closeGate = gate
+		}
 		if i == 0 && p.SlowCloseMs > 0 {
 			ri.closeSleep = time.Duration(p.SlowCloseMs) * time.Millisecond
 		}
@@ -285,6 +303,9 @@ func runStream1(c *vkit.Case, p sPlan) {
 		case kindEndless:
 			ri.endless, ri.idx = true, i
 			lens[i] = 1<<31 - 2
+		case kindDeaf:
+			ri.deaf, ri.release = true, gate
+			pr.HonourCtx = false
 		}
 		ins[i] = ri
 		streams[i] = ri
@@ -410,6 +431,18 @@ func runStream1(c *vkit.Case, p sPlan) {
 				}
 			}
 		}
+		if p.has(kindDeaf) {
+			// The verdict (the error arrived while another input sits in a Next that ignores its
+			// context) is in: only now the harness lets that input go, so that Close can return.
+			blocked := 0
+			for _, ri := range ins {
+				if ri.deaf && ri.deafBlocked.Load() {
+					blocked++
+				}
+			}
+			r.Count("stream.Merge consumer was told ("+outNames[outcome]+") while inputs sat in a context-ignoring Next", fmt.Sprint(blocked), 1)
+			openGate()
+		}
 		if p.GateClose || p.SlowCloseMs > 0 {
 			// What the inputs' Close calls were doing when the consumer was told (recorded, not judged).
 			entered, returned := 0, 0
@@ -492,7 +525,19 @@ func runStream1(c *vkit.Case, p sPlan) {
 				// Every input is exhausted and everything delivered; only the inputs' Close calls are pending.
 				sig = "smerge-end-waits-for-input-close"
 			}
-			c.Violation(sig, fmt.Sprintf("Next of stream.Merge over %d inputs never returned although every input has ended, failed, or delivered everything the consumer was still owed: every goroutine of the case is parked for good", n),
+			if p.has(kindDeaf) {
+				for _, ri := range ins {
+					if ri.errTick.Load() != 0 {
+						// An input has failed; the only thing pending is an input that sits in Next ignoring its context.
+						sig = "smerge-error-withheld"
+					}
+				}
+			}
+			what := fmt.Sprintf("Next of stream.Merge over %d inputs never returned although every input has ended, failed, or delivered everything the consumer was still owed: every goroutine of the case is parked for good", n)
+			if sig == "smerge-error-withheld" {
+				what = fmt.Sprintf("stream.Merge over %d inputs: an input has failed, but the consumer (live context) is not told while another input sits in a Next that ignores its context: every goroutine of the case is parked for good", n)
+			}
+			c.Violation(sig, what,
 				witness(map[string]any{"goroutines": trunc(dump, 8000)}))
 		}
 		return
@@ -939,6 +984,28 @@ func spinningAfterClose(gs *gset, ins []*recIn, phase *atomic.Int32, done <-chan
 	return false, w
 }
 
+// smergeDeafCase: one input fails with E while one or two others sit in a Next that ignores its
+// context (blocked on a channel the harness keeps open). The consumer, whose context is live, must be
+// told E while they are still blocked; only then the harness releases them.
+func smergeDeafCase(c *vkit.Case) {
+	if c.R.NViolations() >= maxViolations {
+		return
+	}
+	rnd := c.Rand
+	n := []int{2, 3, 4, 7}[c.Index%4]
+	p := sPlan{Label: "an input fails while another is blocked in a context-ignoring Next", ConsPace: vkit.Pick(rnd, intensities), CloseAfter: -1}
+	p.Inputs = genInputs(c, n, []int{60, 0, 40})
+	perm := rnd.Perm(n)
+	f := perm[0]
+	p.Inputs[f] = sInput{Kind: kindFatal, N: 3, FatalAt: rnd.Intn(4), ErrKind: (c.Index / 4) % len(errKindNames), Pace: vkit.Pick(rnd, intensities)}
+	p.Inputs[perm[1]] = sInput{Kind: kindDeaf, N: rnd.Intn(3), Pace: vkit.Pick(rnd, intensities)}
+	if n >= 4 && rnd.Bool(0.4) {
+		p.Inputs[perm[2]] = sInput{Kind: kindDeaf, N: rnd.Intn(3), Pace: vkit.Pick(rnd, intensities)}
+	}
+	runStream(c, p)
+	c.R.Count("stream.Merge", "plans: an input fails while another is blocked in a context-ignoring Next", 1)
+}
+
 // smergeGateCase: every input is finite; every input's Close blocks until the consumer has seen
 // End. The merged stream must end when the inputs are exhausted and everything is delivered, not
 // when their Close calls have returned.
@@ -962,7 +1029,7 @@ func smergeGateCase(c *vkit.Case) {
 // ---------------------------------------------------------------------------------------------
 // Named regression scenarios for the defects already repaired in /repo (DESIGN section 5).
 
-const nRegress = 13
+const nRegress = 14
 
 func regressCase(c *vkit.Case) {
 	if c.R.NViolations() >= maxViolations {
@@ -1065,6 +1132,17 @@ func regressCase(c *vkit.Case) {
 		for i := 0; i < n; i++ {
 			p.Inputs = append(p.Inputs, sInput{N: rnd.Intn(4), Kind: kindEnd, Pace: pace()})
 		}
+		runStream(c, p)
+	case 13:
+		name = "an input's error is reported while another input is still blocked in a Next that ignores its context"
+		n := rnd.Range(2, 4)
+		p := sPlan{Label: name, CloseAfter: -1, ConsPace: pace()}
+		for i := 0; i < n; i++ {
+			p.Inputs = append(p.Inputs, sInput{N: rnd.Intn(3), Kind: vkit.Pick(rnd, []int{kindEnd, kindBlock}), Pace: pace()})
+		}
+		f := rnd.Intn(n)
+		p.Inputs[f] = sInput{N: 3, Kind: kindFatal, FatalAt: rnd.Intn(4), ErrKind: rnd.Intn(len(errKindNames)), Pace: pace()}
+		p.Inputs[(f+1+rnd.Intn(n-1))%n] = sInput{Kind: kindDeaf, N: rnd.Intn(3), Pace: pace()}
 		runStream(c, p)
 	case 6:
 		name = "chans.Merge of zero inputs returns"
